@@ -267,6 +267,35 @@ const struct attr_ops file_fd_ops = {
 	.post_set = file_fd_post_hook,
 };
 
+/**  Release everything that belongs to the current file format.
+ * @param ctx   Dump file object.
+ *
+ * Remove the format's attribute hooks, free its private data (including
+ * per-context data of all contexts that share the dump) and the page
+ * cache, and forget the format. This is used when a probe fails, and
+ * before probing again if a dump was already open.
+ */
+static void
+reset_format(kdump_ctx_t *ctx)
+{
+	struct kdump_shared *shared = ctx->shared;
+
+	if (shared->ops) {
+		if (shared->ops->attr_cleanup)
+			shared->ops->attr_cleanup(ctx->dict);
+		if (shared->ops->cleanup)
+			shared->ops->cleanup(shared);
+		shared->ops = NULL;
+	}
+	if (shared->cache) {
+		/* The statistics attributes point into the cache. */
+		attr_embed_value(gattr(ctx, GKI_cache_hits));
+		attr_embed_value(gattr(ctx, GKI_cache_misses));
+		cache_free(shared->cache);
+		shared->cache = NULL;
+	}
+}
+
 /**  Open the dump.
  * @param ctx   Dump file object.
  * @returns     Error status.
@@ -293,7 +322,19 @@ open_dump(kdump_ctx_t *ctx)
 	int fdset[nfiles];
 	int i;
 
+	/* A dump may be open already: tear the old format down first. Its
+	 * private data and caches refer to the old files.
+	 */
+	if (ctx->shared->ops) {
+		kdump_ctx_t *other;
+
+		reset_format(ctx);
+		list_for_each_entry(other, &ctx->shared->ctx, list)
+			other->xlat->dirty = true;
+	}
+
 	flatmap_free(ctx->shared->flatmap);
+	ctx->shared->flatmap = NULL;
 	if (ctx->shared->fcache) {
 		for (i = 0; i < ARRAY_SIZE(fcache_attrs); ++i)
 			attr_embed_value(gattr(ctx, fcache_attrs[i]));
@@ -346,22 +387,10 @@ open_dump(kdump_ctx_t *ctx)
 			ret = finish_open_dump(ctx);
 		if (ret == KDUMP_OK)
 			return ret;
-		if (ctx->shared->ops->attr_cleanup)
-			ctx->shared->ops->attr_cleanup(ctx->dict);
-		if (ctx->shared->ops->cleanup)
-			ctx->shared->ops->cleanup(ctx->shared);
-
 		/* Do not leave a half-initialized format behind,
 		 * whatever the reason of the failure.
 		 */
-		ctx->shared->ops = NULL;
-		if (ctx->shared->cache) {
-			/* The statistics attributes point into the cache. */
-			attr_embed_value(gattr(ctx, GKI_cache_hits));
-			attr_embed_value(gattr(ctx, GKI_cache_misses));
-			cache_free(ctx->shared->cache);
-			ctx->shared->cache = NULL;
-		}
+		reset_format(ctx);
 		clear_volatile_attrs(ctx);
 		if (ret != KDUMP_NOPROBE)
 			return ret;
